@@ -363,6 +363,7 @@ type VC struct {
 	Model    string
 	Agree    int // number of solvers that returned unsat
 	File     string
+	FullAsserts []string // before cone-of-influence slicing
 	ExpectSat bool // cover/vacuity checks: sat is the good answer
 	Props     []string
 }
@@ -630,7 +631,13 @@ func batchCheck(s SolverCfg, vcs []*VC, pre, dir string, perCheckMs int) {
 }
 
 // DischargeAll: batched first pass, individual second pass for what is left.
-func DischargeAll(vcs []*VC, pre string, dir string, timeoutS int, needTwo bool, par int) {
+func DischargeAll(all []*VC, pre string, dir string, timeoutS int, needTwo bool, par int) {
+	vcs, finish := dedupeVCs(all)
+	defer finish()
+	stats.mu.Lock()
+	stats.Calls["(distinct queries after slicing)"] += len(vcs)
+	stats.Calls["(path VCs)"] += len(all)
+	stats.mu.Unlock()
 	const batchSize = 24
 	var batches [][]*VC
 	for i := 0; i < len(vcs); i += batchSize {
@@ -675,6 +682,9 @@ func DischargeAll(vcs []*VC, pre string, dir string, timeoutS int, needTwo bool,
 	var rest []*VC
 	for _, vc := range vcs {
 		if vc.Result == "" {
+			if vc.FullAsserts != nil {
+				vc.Asserts = vc.FullAsserts // models are taken from the unsliced query
+			}
 			rest = append(rest, vc)
 		}
 	}
